@@ -4,10 +4,11 @@ import numpy as np
 from common import *
 
 ID = "C06"
-THEOREM_FILES = ["Summer.Props.C06", "Summer.Props.C08Source"]
+THEOREM_FILES = ["Summer.Props.C06", "Summer.Props.C08Source", "Summer.Props.C06Source"]
 TASK = "task"
 RULE = ("programs with literal / parameterised / expression-valued distributions and splits, full and partial stratifications, "
-        "population-split adjustments after the last stratification, optional whole-population array; observables "
+        "population-split adjustments after the last stratification (every second program: a sequence A, B, A' where A' repeats A's stratification and filter "
+        "with other proportions and B overlaps A), optional whole-population array; observables "
         "get_initial_population, one_step().initial_population and row 0 of the outputs of each solver; plus pairs of models sharing one Stratification "
         "object with different earlier layouts; non-trivial when there is "
         ">= 1 stratification")
@@ -82,7 +83,8 @@ def task(W, payload):
         return shared_task(W, payload)
     r = random.Random(f"C06:{payload['seed']}:{payload['index']}")
     prog = Gen(r, Opts(max_strats=3, allow_array_pop=True, allow_requests=False, allow_computed=False, max_flows=3,
-                       allow_adjust=False, allow_mixing=False, allow_inf_adjust=False, rebalance_prob=0.8)).program()
+                       allow_adjust=False, allow_mixing=False, allow_inf_adjust=False, rebalance_prob=0.8,
+                       rebalance_repeat_bias=(0.6 if payload["index"] % 2 else 0.0), force_strat=bool(payload["index"] % 2))).program()
     S = fresh_session(W)
     out = mk_out(prog)
     if not S.build(prog["build"]):
